@@ -437,7 +437,13 @@ def rf_events(cfg, tid, seq0, obj, fp, tab, time, sched, ladder_nx: int | None =
         seq += 1
         idx = np.arange(nt) if nt <= 400 else np.unique(np.concatenate([np.arange(50), np.linspace(50, nt - 1, 350).astype(int)]))
         up = int(np.searchsorted(idx, upto - 1, side="right"))
-        out.append({"tid": tid, "seq": seq, "ev": "RF", "mode": mode, "rf": quant.qs(rf[idx]), "upto": max(1, up),
+        # rounding floor of each logged step: 1e-9 + 1e-12 x (length of the step) x (largest rate of the run)  [SchemeTrace!SlackOf]
+        tt = np.asarray(time, dtype=float)[idx]
+        with np.errstate(all="ignore"):
+            rate = np.abs(np.diff(rf[idx])) / np.maximum(np.diff(tt), 1e-300)
+            rmax = float(np.nanmax(rate[np.isfinite(rate)])) if np.any(np.isfinite(rate)) else 0.0
+        slack = [quant.qtol(min(1e-4, 1e-9 + 1e-12 * float(d) * rmax)) for d in np.diff(tt)] + [quant.qtol(1e-9)]
+        out.append({"tid": tid, "seq": seq, "ev": "RF", "mode": mode, "rf": quant.qs(rf[idx]), "upto": max(1, up), "slack": slack,
                     "ceil": ceil_q, "hasceil": bool(hasceil and mode == "density"),
                     "plateauE": plateau_e if mode == "flux" else -1, "gapE": gap_e if mode == "flux" else -1})
         raw[f"rf_{mode}_last"] = float(rf[-1])
